@@ -132,6 +132,12 @@ Theorem C12_refines_from_load : forall valid v ops,
 Proof. exact refines_from_load. Qed.
 Print Assumptions C12_refines_from_load.
 
+(* the hypothesis [wf] is not vacuous: every readable configuration is that of a well-formed memory (the one a
+   file load produces: one cell per path), and [wf] is preserved by every edit (C12_refines) *)
+Theorem C12_load_wf : forall v, wf (load v) /\ abs (load v) = v.
+Proof. exact (fun v => conj (load_wf v) (load_abs v)). Qed.
+Print Assumptions C12_load_wf.
+
 (* non-vacuity: a history with accepted and rejected edits of every kind; Validate here rejects any
    configuration in which some path sets field 2 to 99 *)
 Definition ex_valid (v : view) : bool := forallb (fun e => negb (match get 2 (snd e) with Some 99 => true | _ => false end)) (vp v).
